@@ -27,7 +27,7 @@ FaultKinds == <<"illegal_char_line", "stray_identifier_line", "stray_comma_line"
                 "bad_ref_operator", "bad_action", "bad_colour", "text_after_close_brace", "delete_open_bracket", "delete_close_bracket",
                 "duplicate_open_bracket", "duplicate_close_bracket",
                 "empty_settings", "trailing_comma_in_settings", "missing_comma_in_settings", "missing_value", "ref_without_column",
-                "keyword_typo", "junk_in_type_args", "exotic_space_line">>
+                "keyword_typo", "junk_in_type_args", "exotic_space_line", "foreign_setting">>
 
 \* site = [ctx, kind, feats] : the line the fault is applied to (insertions go BEFORE that line, in its block)
 Has(site, f) == \E i \in DOMAIN site.feats : site.feats[i] = f
@@ -47,6 +47,9 @@ ProvablyInvalid(fault, site) ==
     [] fault = "unterminated_string" -> Has(site, "one_single_quoted_string")
     [] fault = "column_without_type" -> site.kind = "column"
     [] fault = "unknown_setting" -> site.kind \in {"column", "index", "table_head", "group_head", "ref_short", "ref_body"} /\ Has(site, "settings")
+    \* each kind of element has its own settings: a setting of another kind (color: in a table header, headercolor: in a
+    \* group, pk in a reference, type: in a column ...) is as unknown there as any other word
+    [] fault = "foreign_setting" -> site.kind \in {"column", "index", "table_head", "group_head", "ref_short", "ref_body"} /\ Has(site, "settings")
     [] fault = "unknown_index_type" -> Has(site, "index_type")
     [] fault = "bad_ref_operator" -> site.kind \in {"ref_short", "ref_body"}
     [] fault = "bad_action" -> Has(site, "action")
